@@ -70,6 +70,23 @@ P = {
          "Cold answers come from a fresh subprocess importing the same tree; known memo tables are cleared at the start of each case so failures replay.",
          "differential against a cold interpreter over Hypothesis call histories + metamorphic argument/sibling invariance"),
 }
+# generators added after the fourth round of independently seeded changes (DESIGN.md 8.4 (v))
+ADD = {
+ "C02": "Pairs with accidental strings of length 0-40 (half on one letter) are sampled; every pair up to 2 accidentals is also asked with the flag omitted, by keyword and as a number.",
+ "C04": "Integers of hundreds to tens of thousands of digits are among the out-of-range signature numbers.",
+ "C07": "The library's inversion helpers are compared with list slicing for chords of every size.",
+ "C08": "Every attribute name of the theory modules and Hypothesis ASCII text serve as unrecognised numerals.",
+ "C09": "Integer beat units reach 2^5000.",
+ "C10": "Comparison pairs also carry their own velocity and channel (half of them of equal pitch).",
+ "C11": "Generated tracks contain chords in non-ascending order and entries held in a user subclass of NoteContainer.",
+ "C13": "place_notes_at is also given its beat as an int, including whole-number beats where no entry starts.",
+ "C15": "Frequency lookups cover the top of the table and everything above it; notes returned by fft.find_notes are modified between calls; sibling scripts edit the lists / dictionaries instances hold in place (14 classes incl. the percussion instrument).",
+ "C16": "Generated scores also contain zero-bar tracks, sounding entries of 0 or 1 tick, unsorted chords and user subclasses of NoteContainer / MidiInstrument.",
+ "C17": "Generated scores also contain zero-bar tracks, unsorted chords and user subclasses; corrupted files include whole-tag swaps (the other chunk tag, foreign tags).",
+ "C18": "Generated music also contains unsorted chords and user subclasses of NoteContainer / MidiInstrument; control changes with non-integer numbers / values just outside 0..128.",
+ "C19": "Generated scores also contain unsorted chords and user subclasses of NoteContainer / MidiInstrument.",
+ "C20": "Compositions may hold one Bar object in two tracks on different tunings; the best chord fingering returned as a NoteContainer is validated through the notes' string / fret attributes.",
+}
 DEFAULT_NOTE = "Oracle = independent reference model under /verif/vlib/ref; bounds per DESIGN.md section 4."
 
 
@@ -83,6 +100,8 @@ def main():
             na.append({"property_id": pid, "reason": "not claimed yet: the check for this property is still under construction (see DESIGN.md section 4 for its design)"})
             continue
         text, note, tech = P[pid]
+        if pid in ADD:
+            text = text + " " + ADD[pid]
         checks.append({
             "property_id": pid,
             "quick_cmd": "./check %s --tier quick" % pid,
